@@ -68,7 +68,7 @@ def run_shard(tier, seed, idx, n, res, tmp, judge=None, prop=None):
     b = budget(tier)
     for ci in common.case_range(idx, b['specs'], n, res):
         try:
-            case = rtwork.SpecCase(prop, seed, ci, tmp, rtwork.rt_profile())
+            case = rtwork.SpecCase(prop, seed, ci, tmp, rtwork.rt_profile(p_shared_type_name=0.15))
         except Exception as e:
             res.violation({'kind': 'package_unusable', 'exc': type(e).__name__,
                            'site': '%s:%s' % common.exc_site(e)}, {'error': repr(e)[:300]},
